@@ -140,7 +140,11 @@ def run(tier, seed):
             v.sample({"operation": op["op"], "mode": o["mode"], "frame_head": o["frames"][0][:24]})
     # ---- concurrent senders through one Node
     scen = [{"tasks": 2, "per_task": 3, "gate": "send.after_len"}, {"tasks": 2, "per_task": 3, "gate": "send.after_control"},
-            {"tasks": 3, "per_task": 8 if thorough else 4, "gate": ""}, {"tasks": 4, "per_task": 12 if thorough else 5, "gate": ""}]
+            {"tasks": 3, "per_task": 8 if thorough else 4, "gate": ""}, {"tasks": 4, "per_task": 12 if thorough else 5, "gate": ""},
+            # volume: callers that never give way between their sends, thousands of frames; read by the Python frame reader below, whose
+            # frame prefix (length excluded: control message and its version byte) is the one the TLA+ reader accepted in the scenarios above
+            {"tasks": 4, "per_task": 6000 if thorough else 1500, "gate": "", "yield": False, "volume": True},
+            {"tasks": 8 if thorough else 6, "per_task": 2000 if thorough else 400, "gate": "", "yield": True, "volume": True}]
     for i, s in enumerate(scen):
         s["id"] = i
     cp = os.path.join(lib.outdir(PID), "conc.ndjson")
@@ -152,6 +156,8 @@ def run(tier, seed):
         raise lib.ToolError("concurrent sender harness did not complete")
     items = []
     for o in cobs:
+        if scen[o["id"]].get("volume"):
+            continue
         for n, f in enumerate(o["frames"]):
             items.append({"id": len(items), "obs": o["id"], "n": n, "bytes": f})
     ip2 = os.path.join(lib.outdir(PID), "conc_in.ndjson")
@@ -164,9 +170,59 @@ def run(tier, seed):
         raise lib.ToolError("TLA+ wire reader failed on the concurrent stream")
     parsed2 = {p["id"]: p for p in lib.read_ndjson(pp2)}
     traces = 0
+    prefixes = set()        # what precedes the message term in a frame the TLA+ reader accepted as {SEND...} ++ message
+
+    def msg_bytes(t, k, size):
+        i = lambda n: [97, n] if n < 256 else [98] + list(n.to_bytes(4, "big"))
+        return [131, 104, 3] + i(t) + i(k) + [109] + list(size.to_bytes(4, "big")) + [(t * 16 + k) % 256] * size
+
+    def read_msg(b):
+        """the message term {T, K, Binary} at the end of a frame -> (t, k, size) or None"""
+        def rd_int(p):
+            if b[p] == 97:
+                return b[p + 1], p + 2
+            if b[p] == 98:
+                return int.from_bytes(bytes(b[p + 1:p + 5]), "big"), p + 5
+            raise ValueError
+        try:
+            if b[:3] != [131, 104, 3]:
+                return None
+            t, p = rd_int(3)
+            k, p = rd_int(p)
+            if b[p] != 109:
+                return None
+            n = int.from_bytes(bytes(b[p + 1:p + 5]), "big")
+            return (t, k, n) if b[p + 5:] == [(t * 16 + k) % 256] * n else None
+        except (ValueError, IndexError):
+            return None
+
     for o in cobs:
         s = scen[o["id"]]
         traces += 1
+        if s.get("volume"):
+            v.case("conc" + json.dumps(s))
+            case = {"scenario": s}
+            if not prefixes:
+                raise lib.ToolError("no frame prefix learnt from the frames the TLA+ reader accepted")
+            last, seen, bad = {}, set(), False
+            for n, f in enumerate(o["frames"]):
+                got = None
+                for pre in prefixes:
+                    if f[:len(pre)] == list(pre):
+                        got = read_msg(f[len(pre):])
+                if got is None or got[2] != ((got[0] * 37 + got[1] * 101) % 5) * 300 or (got[0], got[1]) in seen:
+                    v.violation("a frame from concurrent senders is not one issued message behind the send control message (interleaved, altered or duplicated)", {**case, "frame_no": n, "bytes": f[:80]})
+                    bad = True
+                    break
+                seen.add((got[0], got[1]))
+                if last.get(got[0], 0) > got[1]:
+                    v.violation("messages of one caller reached the peer out of the order in which it issued them", {**case, "task": got[0], "k": got[1], "after": last[got[0]], "frame_no": n})
+                    bad = True
+                    break
+                last[got[0]] = got[1]
+            if len(seen) != s["tasks"] * s["per_task"] and o["sent_ok"] >= s["tasks"] * s["per_task"] and not bad:
+                v.violation("not every issued message arrived as one frame", {**case, "arrived": len(seen), "issued": s["tasks"] * s["per_task"]})
+            continue
         v.case("conc" + json.dumps(s))
         case = {"scenario": s}
         if o["notes"]:
@@ -185,6 +241,9 @@ def run(tier, seed):
             except Exception:
                 v.violation("a frame from concurrent senders does not carry an issued message", {**case, "read": E.short(msg, 200)})
                 break
+            mb = msg_bytes(tk[0], tk[1], size)
+            if t["bytes"][-len(mb):] == mb:
+                prefixes.add(tuple(t["bytes"][:-len(mb)]))
             exp_size = ((tk[0] * 37 + tk[1] * 101) % 5) * 300
             if size != exp_size or tk in seen:
                 v.violation("a frame from concurrent senders is altered or duplicated", {**case, "task": tk[0], "k": tk[1], "size": size})
